@@ -29,8 +29,9 @@ func (e *Engine) verifyFunc(key string) (res *FuncResult) {
 		return
 	}
 	vc := &VC{fn: key}
-	x := &Exec{eng: e, vc: vc, c: c, top: fi, typedSeen: map[*Term]bool{}, symMark: map[*Term]int{},
-		inlined: map[string]bool{}, used: map[string]bool{}}
+	vc.symMark = map[*Term]int{}
+	x := &Exec{eng: e, vc: vc, c: c, top: fi, typedSeen: map[*Term]bool{}, symMark: vc.symMark,
+		inlined: map[string]bool{}, used: map[string]bool{}, wfSeen: map[[2]*Term]bool{}}
 	x.bv = c.Mode == "bv"
 	x.overflow = c.Overflow
 	x.safety = c.Safety
@@ -139,6 +140,24 @@ func (e *Engine) verifyFunc(key string) (res *FuncResult) {
 	// postconditions at every return
 	for k, rs := range f.returns {
 		rsc := &SpecScope{names: map[string]*Value{}, parent: sc, old: entry, pkg: fi.Pkg.Types}
+		// locals that are live at the return may be named in postconditions (existential witnesses)
+		rsc.locals = func(name string, st *State) *Value {
+			var best types.Object
+			for o := range st.env {
+				if o.Name() == name && o.Pos() >= fi.Decl.Pos() && o.Pos() <= fi.Decl.End() {
+					if _, isParam := sc.names[name]; isParam {
+						continue
+					}
+					if best == nil || o.Pos() < best.Pos() {
+						best = o
+					}
+				}
+			}
+			if best == nil {
+				return nil
+			}
+			return x.readVar(best, st)
+		}
 		for i, v := range f.retVals[k] {
 			name := "result"
 			if i > 0 {
@@ -250,7 +269,8 @@ func frameName(k string) string {
 func (e *Engine) verifyLemma(l *Lemma) *FuncResult {
 	res := &FuncResult{Key: "lemma." + l.Name}
 	vc := &VC{fn: res.Key}
-	x := &Exec{eng: e, vc: vc, typedSeen: map[*Term]bool{}, symMark: map[*Term]int{}, inlined: map[string]bool{}, used: map[string]bool{}}
+	vc.symMark = map[*Term]int{}
+	x := &Exec{eng: e, vc: vc, typedSeen: map[*Term]bool{}, symMark: vc.symMark, inlined: map[string]bool{}, used: map[string]bool{}, wfSeen: map[[2]*Term]bool{}}
 	defer func() {
 		res.Obls = vc.obls
 		for _, o := range res.Obls {
@@ -287,7 +307,37 @@ func (e *Engine) verifyLemma(l *Lemma) *FuncResult {
 // entry) is itself below the entry allocation frontier alloc0.
 func (x *Exec) installHeapHook() {
 	a0 := Var("alloc0", IntS)
-	heapInitHook = func(key string, m *Term) {
+	heapInitHook = func(key string, m *Term) { x.heapWF(key, m, a0) }
+}
+
+// assumeHeapWF states, for every reference-carrying heap map of st, that objects
+// existing now only hold references to objects existing now.
+func (x *Exec) assumeHeapWF(st *State) {
+	top := st.allocTop()
+	if !top.IsLit() && top.Op != "var" {
+		top = x.vc.define("top", top)
+	}
+	keys := make([]string, 0, len(st.heap))
+	for k := range st.heap {
+		keys = append(keys, k)
+	}
+	sort.Strings(keys)
+	for _, k := range keys {
+		m := st.heap[k]
+		if m.Op != "var" {
+			continue // written since: facts about the named pieces suffice
+		}
+		ck := [2]*Term{m, top}
+		if x.wfSeen[ck] {
+			continue
+		}
+		x.wfSeen[ck] = true
+		x.heapWF(k, m, top)
+	}
+}
+
+func (x *Exec) heapWF(key string, m *Term, a0 *Term) {
+	{
 		srt := m.S
 		if srt.K != KArr || srt.Dom != IntS {
 			return
